@@ -74,6 +74,16 @@ type groupCase struct {
 	// MissingTopic: the group also subscribes to a topic that does not exist when it is joined (the ending event
 	// "topic-created" creates it: its partition count changes from none to two).
 	MissingTopic bool `json:"missing_topic,omitempty"`
+	// TimeoutMs: ConsumerGroupConfig.Timeout (0 = 2 s): how long the group waits for the coordinator's answer to a
+	// request; a heartbeat that is never answered (ending event "heartbeat-silent") ends the generation after that long.
+	TimeoutMs int `json:"timeout_ms,omitempty"`
+}
+
+func timeoutOf(c groupCase) time.Duration {
+	if c.TimeoutMs > 0 {
+		return time.Duration(c.TimeoutMs) * time.Millisecond
+	}
+	return 2 * time.Second
 }
 
 func init() { ev.Register("group", func(tb ev.TB, c groupCase) { run(tb, c) }) }
@@ -121,6 +131,9 @@ func run(tb ev.TB, c groupCase) (labels []string, nontrivial bool) {
 				if f.Kind == "drop" {
 					return &fakecluster.Action{DropBeforeApply: true, Tag: "hb-drop"}
 				}
+				if f.Kind == "silent" {
+					return &fakecluster.Action{NoResponse: true, Tag: "hb-silent"}
+				}
 				return &fakecluster.Action{ErrorCode: f.Code, Tag: "hb-error"}
 			}
 			_ = dropConnOf
@@ -151,7 +164,7 @@ func run(tb ev.TB, c groupCase) (labels []string, nontrivial bool) {
 	backoff := time.Duration(c.BackoffMs) * time.Millisecond
 	cfg := kafka.ConsumerGroupConfig{ID: group, Brokers: []string{"b1.fake:9092"}, Dialer: &kafka.Dialer{DialFunc: nw.Dial, Timeout: 2 * time.Second, ClientID: "c15"},
 		Topics: []string{topic}, HeartbeatInterval: hb, SessionTimeout: sessionOf(c), RebalanceTimeout: 300 * time.Millisecond, JoinGroupBackoff: backoff,
-		WatchPartitionChanges: c.WatchMs > 0, PartitionWatchInterval: time.Duration(c.WatchMs) * time.Millisecond, Timeout: 2 * time.Second, StartOffset: kafka.FirstOffset}
+		WatchPartitionChanges: c.WatchMs > 0, PartitionWatchInterval: time.Duration(c.WatchMs) * time.Millisecond, Timeout: timeoutOf(c), StartOffset: kafka.FirstOffset}
 	if c.MissingTopic {
 		cfg.Topics = append(cfg.Topics, "later")
 	}
@@ -407,6 +420,13 @@ func run(tb ev.TB, c groupCase) (labels []string, nontrivial bool) {
 			mu.Unlock()
 			endAt = time.Time{}
 			lab["ended_by_dropped_heartbeat"] = true
+		case "heartbeat-silent":
+			// the coordinator takes the next heartbeat and never answers it: the wait ends with the group's Timeout
+			mu.Lock()
+			hbFault = &apiFault{Kind: "silent"}
+			mu.Unlock()
+			endAt = time.Time{}
+			lab["ended_by_unanswered_heartbeat"] = true
 		case "rebalance":
 			cl.ForceRebalance(group)
 			endAt = time.Time{} // set when a heartbeat is answered with REBALANCE_IN_PROGRESS
@@ -502,6 +522,10 @@ func run(tb ev.TB, c groupCase) (labels []string, nontrivial bool) {
 				case "conn-drop":
 					if ex.Tag == "hb-drop" {
 						return ex.At
+					}
+				case "heartbeat-silent":
+					if ex.Tag == "hb-silent" {
+						return ex.At.Add(timeoutOf(c))
 					}
 				case "rebalance":
 					if ex.ApiKey == 12 && ex.RespBody != nil && ex.RespBody["ErrorCode"] == int64(27) {
@@ -627,6 +651,7 @@ func run(tb ev.TB, c groupCase) (labels []string, nontrivial bool) {
 		start  time.Time
 		end    time.Time
 		beats  int
+		silent time.Time // arrival of the heartbeat the coordinator never answered: none can follow it
 		first  time.Time // arrival of the first and of the last heartbeat
 		last   time.Time
 		times  []time.Time
@@ -661,6 +686,9 @@ func run(tb ev.TB, c groupCase) (labels []string, nontrivial bool) {
 			return
 		}
 		gi.beats++
+		if ex.Tag == "hb-silent" {
+			gi.silent = ex.At
+		}
 		if gi.first.IsZero() {
 			gi.first = ex.At
 		}
@@ -681,6 +709,9 @@ func run(tb ev.TB, c groupCase) (labels []string, nontrivial bool) {
 			if e.gen == id && (e.kind == "fn-ctx-done" || e.kind == "fn-exit") && e.at.Before(live) {
 				live = e.at
 			}
+		}
+		if !gi.silent.IsZero() && gi.silent.Before(live) {
+			live = gi.silent
 		}
 		life := live.Sub(gi.start)
 		// "at the configured interval": not more often either (a ticker never runs ahead, whatever the load)
@@ -890,6 +921,10 @@ func genCase(t *rapid.T) groupCase {
 			ends = append(ends, "topic-deleted") // only as the last round: nothing can be joined for afterwards
 		}
 		rd.End = rapid.SampledFrom(ends).Draw(t, "end")
+		if c.WatchMs == 0 && rapid.IntRange(0, 14).Draw(t, "silentHeartbeat") == 0 {
+			rd.End = "heartbeat-silent"
+			c.TimeoutMs = 700
+		}
 		if c.WatchMs == 0 && i < nr-1 && rapid.IntRange(0, 7).Draw(t, "noFns") == 0 {
 			rd.NoFns = true
 			rd.End = rapid.SampledFrom([]string{"heartbeat-error", "rebalance"}).Draw(t, "noFnsEnd")
